@@ -35,7 +35,7 @@ Qed.
 Definition advance (n : Z) (s : istream) (good eof : bool) : istream :=
   {| s_before := rev (ztake n (s_after s)) ++ s_before s; s_after := zdrop n (s_after s);
      s_cur := s_cur s + n; s_pos := s_pos s + n; s_size := s_size s;
-     s_good := good; s_eof := eof; s_sticky := false |}.
+     s_good := good; s_eof := eof; s_sticky := false; s_open := s_open s |}.
 
 Lemma zlen_rev {A} (l : list A) : zlen (rev l) = zlen l.
 Proof. unfold zlen. rewrite rev_length. reflexivity. Qed.
